@@ -24,7 +24,7 @@ def shards(tier):
 def floors(tier):
     return {"tables": 300, "symbols_decoded_alone": 10000, "strings_decoded": 5000, "tables_with_cap0": 50,
             "tables_with_cap>=9": 50, "tables_with_multidigit_charge": 50, "alphabet_after_switch": 300,
-            "noncanonical_key_rejected": 10, "passed_dict_mutated": 100, "rejected_updates": 300, "sets_without_alphabet_read": 500, "decoded_atoms>=30": 50}
+            "noncanonical_key_rejected": 10, "passed_dict_mutated": 100, "rejected_updates": 300, "sets_without_alphabet_read": 500, "strings_after_switch": 2000, "decoded_atoms>=30": 50}
 
 
 def model_alphabet(t):
@@ -173,6 +173,21 @@ def run(ctx):
         ctx.count("alphabet_after_switch")
         if r2[0] == "ok":
             check_alphabet(ctx, set(r2[1]), table2, {"table": table2, "previous_table": table})
+            AL2 = sorted(r2[1])
+            for k in range(6):
+                # strings over the NEW alphabet that lean on the atom kinds of the PREVIOUS table (their capacities are
+                # still in every memo): saturate each of them
+                kinds = [s_ for s_ in AL2 if s_.strip("[]=#") in table and s_.strip("[]=#") not in ("?",)] or AL2
+                x = "".join(rng.choice(kinds) + rng.choice(AL2) * rng.choice([1, 3]) for _ in range(rng.choice([2, 6, 15])))
+                d = call_guard(lambda: sf.decoder(x), expected=(sf.DecoderError,))
+                ctx.count("strings_after_switch")
+                if d[0] != "ok":
+                    ctx.finding("decoder-rejects-alphabet-string", {"selfies": x, "table": table2, "previous_table": table}, repr(d)[:200])
+                else:
+                    status, mol, detail = judge_output(d[1], table2)
+                    if status not in ("ok", "f1", "budget"):
+                        ctx.finding("alphabet-string-%s" % status, {"selfies": x, "table": table2, "previous_table": table,
+                                                                     "output": d[1][:800]}, detail)
             again = call_guard(sf.get_semantic_robust_alphabet)
             if again[0] == "ok" and set(again[1]) != set(r2[1]):
                 ctx.finding("alphabet-unstable", {"table": table2}, "two consecutive calls differ")
